@@ -31,7 +31,8 @@ RULE = ('exh: for high in 1..8 and 24 master seeds, ALL indices < high and ALL i
         'of length <= 4 (<= 3 for high >= 6) sharing one cache (collisions in the draw stream '
         'are forced), plus unservable indices (== high, > high, negative) - exhaustive for that '
         'bounded space. hist: sampled histories of <= 40 indices (increasing / repeated / '
-        'decreasing / jumping, tape-chosen) on one shared cache, high in {2**31, 1000, 50, 12}. '
+        'decreasing / jumping, tape-chosen; indices up to 500) on one shared cache, high in '
+        '{2**31, 2**32, 2**16+1, 5000, 1000, 300, 50, 12}. '
         'sim: real sampler runs under the simulated scheduler; every submitted net\'s generator '
         'is compared (full state) with RandomState(ref_sub_seed(seed, batch_index)). distinct = '
         '(kind, high, index sequence pattern) resp. abstract schedule; non-trivial = the '
@@ -174,7 +175,7 @@ def run_exh(tape, out, idx):
 
 def gen_index_history(tape, high, maxlen=40):
     n = tape.int('hist_len', 2, maxlen)
-    top = min(high - 1, tape.choice('index_top', [5, 20, 60, 200]))
+    top = min(high - 1, tape.choice('index_top', [5, 20, 60, 200, 500]))
     pattern = tape.choice('pattern', ['increasing', 'repeated', 'decreasing', 'jumping', 'mixed'])
     seq = []
     cur = tape.int('start', 0, top)
@@ -194,7 +195,7 @@ def gen_index_history(tape, high, maxlen=40):
 def run_hist(tape, out):
     import_elfi()
     from elfi.utils import get_sub_seed
-    high = tape.choice('high', [2 ** 31, 2 ** 31, 1000, 50, 12, 2 ** 32, 2 ** 16 + 1])
+    high = tape.choice('high', [2 ** 31, 2 ** 31, 1000, 50, 12, 2 ** 32, 2 ** 16 + 1, 5000, 300])
     seed = tape.int('seed', 0, 2 ** 31 - 1)
     pattern, seq = gen_index_history(tape, high)
     ref = ref_values(seed, high, max(seq) + 1)
